@@ -8,7 +8,7 @@ BIAS = ['capacity', 'capacity', '', 'abandon']
 
 
 def keyfn(case, res, m):
-    return f"{m['rule']}:server"
+    return f"{m['rule']}:{'asyncserver' if case.get('kind') == 'async' else 'server'}"
 
 
 def run(chk, props=None, prop=None, bias=None):
@@ -18,7 +18,7 @@ def run(chk, props=None, prop=None, bias=None):
     b = bias or BIAS
     core.e1_flow(chk, 'scen_server', 'ledger', {prop},
                  lambda rng: scen_server.gen_case(rng, chk.tier, rng.choice(b)), n, keyfn=keyfn)
-    chk.cov['rule'] = ('cases = random (capacity, worker threads, 2-8 caller threads issuing call() with/without '
+    chk.cov['rule'] = ('cases = random (Server or AsyncServer, capacity, worker threads, 2-8 caller threads / asyncio tasks issuing call() with/without '
                        'backpressure and finite or unbounded deadlines, stream() callers with early close, failing '
                        'requests, service durations, chooser incl. early timer firing, seed) run on the real Server '
                        'under the deterministic scheduler; Server.backlog sampled at every scheduling step; small cases '
@@ -34,7 +34,7 @@ TRUSTED = [
     'deterministic scheduler harness/detsched.py (threading primitives, SimpleQueue, virtual clock with early timer firing)',
     'modelled not verified: threading.Condition (mutual exclusion, notify wakes a waiter, woken waiter re-acquires), dict insert/pop atomic under the GIL, concurrent.futures.Future (cancel succeeds iff not yet resolved), itertools.count() never repeats',
     'the servlet is an abstract box in this model (emits each message once, any order, with the response of that message\'s input): proved of servlet trees separately (C02 layer 1)',
-    'AsyncServer has the same ledger logic on an asyncio condition; it is not driven by this check (covered by C16 for equality of answers)',
+    'AsyncServer (asyncio condition, notifications delivered through the event loop) is driven by the same scenario with the callers as asyncio tasks on a cooperative-selector event loop (harness/cooploop.py) and validated against the same ledger model',
     'time is not modelled in Lean: "waits no longer than its timeout" is evaluated on the real code by the scheduler\'s timed-wait accounting',
 ]
 ASSUMPTIONS = [
